@@ -277,6 +277,10 @@ def _bits_reference(name, levels, trees_q, agg_tree):
   raise KeyError(name)
 
 
+class _Interrupted(Exception):
+  pass
+
+
 def aggregator_rounds(case):
   import jax
   import jax.numpy as jnp
@@ -326,6 +330,17 @@ def aggregator_rounds(case):
                for i in range(n)]
       if case.get('zero_leaf'):
         trees[0] = jax.tree_util.tree_map(jnp.zeros_like, trees[0])
+      if n > 1:
+        # an apply whose client stream fails after the first client must not leak into later accounting
+        def failing():
+          for j, item in enumerate([(b'c%d' % i, t, w) for i, (t, w) in enumerate(zip(trees, weights))]):
+            if j == 1:
+              raise _Interrupted()
+            yield item
+        try:
+          agg.apply(failing(), state)
+        except _Interrupted:
+          pass
       recorded.clear()
       keys.clear()
       out, new = agg.apply(iter([(b'c%d' % i, t, w) for i, (t, w) in enumerate(zip(trees, weights))]), state)
